@@ -281,6 +281,15 @@ def run(ctx):
         okj = len(outer) == 1 and sp.simplify(r / outer[0] - sp.pi / 180) == 0
         ctx.expect(okj, "R05.3", f"estimate_directional_distribution[{meth}][Jacobian]",
                    "the per-radian density is multiplied by pi/180 exactly once", fe.loc(), derived=T.show(r, 160))
+        if len(outer) == 1:
+            oshape = outer[0].args[1]
+            want_shape = op("seqcat", op("list", op("shape", A1)), sp.Tuple(op("len", DIR)))
+            alt = [want_shape, op("seqcat", op("shape", A1), sp.Tuple(op("len", DIR)))]
+            oks = any(T.equivalent(oshape, w) == T.Verdict.EQUAL for w in alt)
+            ctx.expect(oks, "R05.3", f"estimate_directional_distribution[{meth}][output shape]",
+                       "the result has the shape of the moments the caller passed in, plus one trailing direction axis "
+                       "(callers multiply it with e[..., None] and label it with the input's dimensions)", fe.loc(),
+                       derived=T.show(oshape, 200), required=T.show(want_shape, 120))
         shapes = {x.args[1] for x in T.find_ops(c, "reshape")}
         moments_in = [x.args[0] for x in c.args[1:5] if fname(x) == "reshape"]
         ctx.expect(len(shapes) == 1 and moments_in == [A1, B1, A2, B2], "R05.3", f"estimate_directional_distribution[{meth}][moments]",
@@ -375,7 +384,7 @@ def run(ctx):
     ctx.require_count("R05.7", 1)
     ctx.require_count("R05.1", 3)
     ctx.require_count("R05.2", 4)
-    ctx.require_count("R05.3", 10)
+    ctx.require_count("R05.3", 12)
     ctx.require_count("R05.4", 5)
     ctx.require_count("R05.5", 5)
     ctx.require_count("R05.6", 6)
